@@ -21,6 +21,7 @@ MODULES = {
     "C12": "vlib.props.c12",
     "C13": "vlib.props.c13",
     "C17": "vlib.props.c17",
+    "C18": "vlib.props.c18",
     "C06": "vlib.props.c06",
     "C07": "vlib.props.c07",
     "C14": "vlib.props.c14",
